@@ -14,6 +14,11 @@ def plainU (bits : Nat) (prof : Profile) (x : Int) : Outcome Nat :=
   if 0 ≤ x ∧ x < (2 : Int) ^ bits then .ok x.toNat
   else if prof.oc then .panic .arith else .ok (x % (2 : Int) ^ bits).toNat
 
+/-- `fpdec::DecimalError` -/
+inductive DecimalError
+  | maxNFracDigitsExceeded | internalOverflow | infiniteValue | notANumber | divisionByZero
+deriving Repr, DecidableEq
+
 /-- truncation to an unsigned type of the given width (`as uN`, `wrapping_*`, bits shifted out by `<<`) -/
 def wrapU (bits : Nat) (x : Nat) : Nat := x % 2 ^ bits
 
